@@ -166,7 +166,7 @@ def rule_S1_S2(sc, rep, prop):
                        f"left there (e.g. the middle of a CSI sequence at the end of a chunk) is lost")
         else:
             why = "store of an unrecognised value into the carried state"
-        rep.check(ok, "S1", anchor, f"store@{phase}:{hirpp.expr(r)[-40:]}", f"S1 no-blind-overwrite: {why}", loc(b, n))
+        rep.check(ok, "S1", anchor, f"store@{phase}:{short(r)}", f"S1 no-blind-overwrite: {why}", loc(b, n))
     # no other route to mutate the state: the `&mut State` itself is never handed to a callee
     leaks = []
     for n in hir.walk(b["hir"]):
@@ -179,6 +179,15 @@ def rule_S1_S2(sc, rep, prop):
                     leaks.append(n)
     rep.check(not leaks, "S1", anchor, "no-escape", "the carried `&mut State` is not passed to any callee", loc(b))
     return len(sites), len(stores)
+
+
+def short(e):
+    e = hir.simp(e)
+    if e.get("k") == "def":
+        return "::".join(e["path"].split("::")[-2:])
+    if e.get("k") == "local":
+        return "$" + e["name"]
+    return e.get("k", "?")
 
 
 def local_frames(frames):
